@@ -29,8 +29,8 @@ func init() {
 		}
 		ruleReadDBILoop(c, "C01-R3", false)
 		ruleSendDump(c, "C01-R3", "C01-R3", "C01-R5")
-		ruleCollectionExhausted(c, "C01-R3", fnSendTxn, collDBINames, nil)
-		ruleCollectionExhausted(c, "C01-R4", fnLoadTxn, collSnapDBIs, nil)
+		ruleCollectionExhausted(c, "C01-R3", fnSendTxn, collDBINames, "the DBI names of the environment", nil)
+		ruleCollectionExhausted(c, "C01-R4", fnLoadTxn, collSnapDBIs, "the DBIs of the snapshot", nil)
 		ruleLoadBody(c, "C01-R4", "C01-R4", "C01-R4", "C01-R4", "C01-R4")
 		ruleUpdateLoop(c, "C01-R4")
 		ruleCaptureBeforeProject(c, "C01-R5")
@@ -98,6 +98,7 @@ func init() {
 		ruleSyncedIdBound(c, "C03-R6")
 		c.Rule("C03-R7", "CAPTURE-COMPLETE: the capture pass runs unconditionally in shadow mode and passes no application DBI over")
 		ruleSendDump(c, "C03-R7", "C03-R7", "C03-R7")
+		ruleCollectionExhausted(c, "C03-R7", fnMainToSh, collDBINames, "the DBI names of the environment", nil)
 		ruleMainToShadow(c, "C03-R7", "C03-R7", "C03-R7")
 		c.Rule("C03-R8", "LIVE-KEPT-UNLESS-BEATEN: in the merge table a stored version is replaced or removed only by an incoming version that wins last-writer-wins, for every stale-marker cutoff; the merge is always against the stored value")
 		if t := BuildMergeTable(c, "syncer.(*NativeIterator).Merge"); t != nil {
@@ -193,6 +194,7 @@ func init() {
 		c.Rule("C06-R6", "FLAGS-OF-ORIGINAL")
 		ruleOneTxn(c, "C06-R1", fnSendOnce, fnSendTxn, []string{fnReadDBI, fnMainToSh, "lmdbenv.ReadDBINames"})
 		ruleSendDump(c, "C06-R2", "C06-R4", "C06-R2")
+		ruleCollectionExhausted(c, "C06-R2", fnSendTxn, collDBINames, "the DBI names of the environment", nil)
 		ruleReadDBILoop(c, "C06-R3", false)
 		ruleSendNaming(c, "C06-R5")
 		ruleReadDBIFlags(c, "C06-R6", "C06-R6")
@@ -348,7 +350,7 @@ func init() {
 		ruleLimitScannerResume(c, "C13-R6")
 		c.Rule("C13-R7", "SLICE-ERROR-ABORTS: a failed slice transaction ends the pass with an error before the resume flag is looked at")
 		ruleSweepSliceErrors(c, "C13-R7")
-		ruleCollectionExhausted(c, "C13-R7", fnSweep, collLocalNames, nil)
+		ruleCollectionExhausted(c, "C13-R7", fnSweep, collLocalNames, "the DBI names of the environment", nil)
 		ruleRawReadWriters(c, "C13-R5")
 	})
 }
@@ -434,8 +436,8 @@ func init() {
 		ruleSendDump(c, "C11-R7", "C11-R6", "C11-R7")
 		ruleMainToShadow(c, "C11-R7", "C11-R7", "C11-R4")
 		ruleShadowToMain(c, "C11-R7", "C11-R7")
-		ruleCollectionExhausted(c, "C11-R7", fnMainToSh, collDBINames, nil)
-		ruleCollectionExhausted(c, "C11-R7", fnShToMain, collDBINames, nil)
+		ruleCollectionExhausted(c, "C11-R7", fnMainToSh, collDBINames, "the DBI names of the environment", nil)
+		ruleCollectionExhausted(c, "C11-R7", fnShToMain, collDBINames, "the DBI names of the environment", nil)
 		ruleSyncedIdBound(c, "C11-R7")
 		ruleRawReadRestored(c, "C11-R8")
 		ruleRawReadWriters(c, "C11-R8")
